@@ -8,6 +8,7 @@ import (
 	"net"
 	"runtime/debug"
 	"sort"
+	"strconv"
 	"strings"
 	"sync"
 	"testing"
@@ -52,6 +53,61 @@ func (s *stats) list() []string {
 }
 
 func (s *stats) nontrivial() bool { return s.reached && s.hostile }
+
+// size labels the highest of the thresholds that n reaches (none: no label), so
+// that the label distribution shows how often a size class is generated.
+func (s *stats) size(dim string, n int, thresholds ...int) {
+	best := -1
+	for _, th := range thresholds {
+		if n >= th && th > best {
+			best = th
+		}
+	}
+	if best >= 0 {
+		s.label(fmt.Sprintf("size:%s>=%d", dim, best))
+	}
+}
+
+func (s *stats) strSize(str string) { s.size(dimStr, len(str), 256, 4096) }
+
+// pathSizes labels the size classes of one path.
+func pathSizes(p *pb.Path, st *stats) {
+	if p == nil {
+		return
+	}
+	st.size(dimElems, len(p.Elem)+len(p.Element), 5, 17, 33)
+	st.strSize(p.Origin)
+	st.strSize(p.Target)
+	for _, e := range p.Element {
+		st.strSize(e)
+	}
+	for _, e := range p.Elem {
+		st.strSize(e.Name)
+		st.size(dimKeys, len(e.Key), 5, 9)
+		for k, v := range e.Key {
+			st.strSize(k)
+			st.strSize(v)
+		}
+	}
+}
+
+// valueSizes labels the size classes of one value.
+func valueSizes(v *pb.TypedValue, st *stats) {
+	depth := 0
+	for ll := v.GetLeaflistVal(); ll != nil; depth++ {
+		st.size(dimLeaflist, len(ll.Element), 5, 17, 257)
+		var next *pb.ScalarArray
+		for _, e := range ll.Element {
+			if n := e.GetLeaflistVal(); n != nil {
+				next = n
+			}
+		}
+		ll = next
+	}
+	st.size(dimNest, depth-1, 1, 3, 17)
+	st.strSize(v.GetStringVal())
+	st.size(dimStr, len(v.GetBytesVal())+len(v.GetJsonVal())+len(v.GetJsonIetfVal())+len(v.GetAsciiVal()), 256, 4096)
+}
 
 func trimStack(b []byte) string {
 	lines := strings.Split(string(b), "\n")
@@ -101,8 +157,12 @@ func hostileFeatures(n *pb.Notification, st *stats) {
 			}
 		}
 	}
+	pathSizes(pfx, st)
+	st.size(dimEntries, len(n.Update)+len(n.Delete), 5, 17, 65, 257)
 	for _, u := range n.Update {
 		check("update", u.Path)
+		pathSizes(u.Path, st)
+		valueSizes(u.Val, st)
 		if u.Val == nil {
 			st.label("missing-val")
 			st.hostile = true
@@ -117,6 +177,7 @@ func hostileFeatures(n *pb.Notification, st *stats) {
 	}
 	for _, d := range n.Delete {
 		check("delete", d)
+		pathSizes(d, st)
 	}
 	if n.Atomic {
 		st.label("atomic")
@@ -138,47 +199,129 @@ func hostileFeatures(n *pb.Notification, st *stats) {
 	}
 }
 
+// leafSnap is one stored leaf: its index path (target first) and its content.
+type leafSnap struct {
+	path []string
+	data string
+}
+
+// pathKey is an injective map key of an index path (element strings may contain any byte).
+func pathKey(p []string) string {
+	var b strings.Builder
+	for _, e := range p {
+		b.WriteString(strconv.Itoa(len(e)))
+		b.WriteByte(':')
+		b.WriteString(e)
+	}
+	return b.String()
+}
+
 // dataSnapshot: every stored leaf of every target, deterministically marshalled.
-func dataSnapshot(c *cache.Cache, targets []string) map[string]string {
-	out := map[string]string{}
+func dataSnapshot(c *cache.Cache, targets []string) map[string]leafSnap {
+	out := map[string]leafSnap{}
 	for _, tg := range targets {
 		if !c.HasTarget(tg) {
 			continue
 		}
 		c.Query(tg, []string{"*"}, func(p []string, _ *ctree.Leaf, v interface{}) error {
-			k := gn.Key(append([]string{tg}, p...))
+			full := append([]string{tg}, p...)
+			ls := leafSnap{path: full}
 			if n, ok := v.(*pb.Notification); ok {
 				b, _ := proto.MarshalOptions{Deterministic: true, AllowPartial: true}.Marshal(n)
-				out[k] = string(b)
+				ls.data = string(b)
 			} else {
-				out[k] = fmt.Sprintf("%T", v)
+				ls.data = fmt.Sprintf("%T", v)
 			}
+			out[pathKey(full)] = ls
 			return nil
 		})
 	}
 	return out
 }
 
-// addressed reports whether a stored leaf could be the subject of the notification.
-func addressed(n *pb.Notification, target string, key []string) bool {
-	if len(key) == 0 || key[0] != target {
+// short truncates a rendering for messages and replay texts.
+func short(s string, max int) string {
+	if len(s) <= max {
+		return s
+	}
+	return fmt.Sprintf("%s ...[%d bytes in all]", s[:max], len(s))
+}
+
+// checkRejected is the oracle for a notification the cache returned an error
+// for: every leaf the message does not address is byte-identical afterwards
+// (the whole content for single-entry and atomic messages).
+func checkRejected(before, after map[string]leafSnap, clone *pb.Notification, tgt string, gerr error, what string) error {
+	single := len(clone.Update)+len(clone.Delete) <= 1 || clone.Atomic
+	ad := newAddresser(clone, tgt)
+	for k, v := range before {
+		if single || !ad.addressed(v.path) {
+			if a, ok := after[k]; !ok || a.data != v.data {
+				return fmt.Errorf("%s was rejected (%v) but stored leaf %q changed or vanished; message: %s", what, gerr, v.path, short(fmt.Sprint(clone), 3000))
+			}
+		}
+	}
+	if single {
+		for k, a := range after {
+			if _, ok := before[k]; !ok {
+				return fmt.Errorf("%s was rejected (%v) but leaf %q appeared; message: %s", what, gerr, a.path, short(fmt.Sprint(clone), 3000))
+			}
+		}
+	}
+	return nil
+}
+
+// addresser decides whether a stored leaf could be the subject of a notification
+// (the index paths of the notification are computed once).
+type addresser struct {
+	target  string
+	atomic  bool
+	pfx     []string
+	updates [][]string
+	deletes [][]string
+}
+
+func newAddresser(n *pb.Notification, target string) *addresser {
+	a := &addresser{target: target, atomic: n.Atomic}
+	a.pfx = gn.RefIndex(&pb.Path{Origin: n.GetPrefix().GetOrigin(), Elem: n.GetPrefix().GetElem(), Element: n.GetPrefix().GetElement()}, true)
+	for _, u := range n.Update {
+		a.updates = append(a.updates, append(append([]string{}, a.pfx...), gn.RefIndex(u.Path, false)...))
+	}
+	for _, d := range n.Delete {
+		a.deletes = append(a.deletes, append(append([]string{}, a.pfx...), gn.RefIndex(d, false)...))
+	}
+	return a
+}
+
+func samePath(a, b []string) bool {
+	if len(a) != len(b) {
+		return false
+	}
+	for i := range a {
+		if a[i] != b[i] {
+			return false
+		}
+	}
+	return true
+}
+
+// addressed: key is the index path of a stored leaf, target first.
+func (a *addresser) addressed(key []string) bool {
+	if len(key) == 0 || key[0] != a.target {
 		return false
 	}
 	leaf := key[1:]
-	pfx := gn.RefIndex(&pb.Path{Origin: n.GetPrefix().GetOrigin(), Elem: n.GetPrefix().GetElem(), Element: n.GetPrefix().GetElement()}, true)
 	related := func(p []string) bool {
-		return gn.Key(p) == gn.Key(leaf) || gn.IsProperPrefix(p, leaf) || gn.IsProperPrefix(leaf, p)
+		return samePath(p, leaf) || gn.IsProperPrefix(p, leaf) || gn.IsProperPrefix(leaf, p)
 	}
-	if n.Atomic && related(pfx) {
+	if a.atomic && related(a.pfx) {
 		return true
 	}
-	for _, u := range n.Update {
-		if related(append(append([]string{}, pfx...), gn.RefIndex(u.Path, false)...)) {
+	for _, u := range a.updates {
+		if related(u) {
 			return true
 		}
 	}
-	for _, d := range n.Delete {
-		pat := append(append([]string{}, pfx...), gn.RefIndex(d, false)...)
+	for _, pat := range a.deletes {
 		if gn.Matches(pat, leaf) || gn.Compatible(pat, leaf) {
 			return true
 		}
@@ -205,10 +348,10 @@ func collectorUpdate(c *cache.Cache, target string, v *pb.Notification) error {
 // response builder and the client receive path).
 func runIngest(sc *Scenario) (st *stats, err error) {
 	st = &stats{}
-	where := "setup"
+	where := func() string { return "setup" }
 	defer func() {
 		if r := recover(); r != nil {
-			err = fmt.Errorf("panic during %s: %v\n%s", where, r, trimStack(debug.Stack()))
+			err = fmt.Errorf("panic during %s: %v\n%s", where(), r, trimStack(debug.Stack()))
 		}
 	}()
 	c := cache.New(allTargets)
@@ -220,6 +363,8 @@ func runIngest(sc *Scenario) (st *stats, err error) {
 			c.GnmiUpdate(n)
 		}
 	}
+	st.size(dimPre, len(sc.Pre), 17, 129)
+	st.size(dimMsgs, len(sc.Msgs), 17, 129)
 	for _, l := range sc.Lifecycle {
 		switch l {
 		case "sync":
@@ -243,7 +388,8 @@ func runIngest(sc *Scenario) (st *stats, err error) {
 		hostileFeatures(n, st)
 		before := dataSnapshot(c, allTargets)
 		clone := proto.Clone(n).(*pb.Notification)
-		where = fmt.Sprintf("GnmiUpdate of message %d (%v)", i, clone)
+		phase := "GnmiUpdate of"
+		where = func() string { return fmt.Sprintf("%s message %d (%s)", phase, i, short(fmt.Sprint(clone), 3000)) }
 		var gerr error
 		if sc.Stamp {
 			gerr = collectorUpdate(c, "dev", n)
@@ -257,32 +403,34 @@ func runIngest(sc *Scenario) (st *stats, err error) {
 		}
 		if gerr != nil {
 			st.label("rejected")
-			after := dataSnapshot(c, allTargets)
-			single := len(clone.Update)+len(clone.Delete) <= 1 || clone.Atomic
-			for k, v := range before {
-				if single || !addressed(clone, tgt, gn.Unkey(k)) {
-					if a, ok := after[k]; !ok || a != v {
-						return st, fmt.Errorf("message %d was rejected (%v) but stored leaf %q changed or vanished; message: %v", i, gerr, gn.Unkey(k), clone)
-					}
-				}
-			}
-			if single {
-				for k := range after {
-					if _, ok := before[k]; !ok {
-						return st, fmt.Errorf("message %d was rejected (%v) but leaf %q appeared; message: %v", i, gerr, gn.Unkey(k), clone)
-					}
-				}
+			if cerr := checkRejected(before, dataSnapshot(c, allTargets), clone, tgt, gerr, fmt.Sprintf("message %d", i)); cerr != nil {
+				return st, cerr
 			}
 		} else {
 			st.label("accepted")
 		}
-		where = fmt.Sprintf("UpdateMetadata after message %d (%v)", i, clone)
+		phase = "UpdateMetadata after"
 		c.UpdateMetadata()
-		where = fmt.Sprintf("UpdateSize after message %d (%v)", i, clone)
+		phase = "UpdateSize after"
 		c.UpdateSize()
 	}
 	// what the cache holds now goes out through the response builder and in through the client
-	where = "walk / MakeSubscribeResponse / client receive of the resulting cache content"
+	where = func() string {
+		return "walk / MakeSubscribeResponse / client receive of the resulting cache content"
+	}
+	walkAndDecode(c, srv)
+	where = func() string { return "Reset after the messages" }
+	c.Reset("dev")
+	where = func() string { return "UpdateMetadata after Reset" }
+	c.UpdateMetadata()
+	where = func() string { return "Remove" }
+	c.Remove("dev")
+	return st, nil
+}
+
+// walkAndDecode sends everything the cache holds through the response builder,
+// the wire format and the gNMI client's receive function into a CacheClient.
+func walkAndDecode(c *cache.Cache, srv *subscribe.Server) {
 	var resps []*pb.SubscribeResponse
 	c.Query("*", []string{"*"}, func(_ []string, _ *ctree.Leaf, v interface{}) error {
 		r, merr := srv.MakeSubscribeResponse(v, 1)
@@ -304,13 +452,6 @@ func runIngest(sc *Scenario) (st *stats, err error) {
 		}
 	}
 	cc.Leaves()
-	where = "Reset after the messages"
-	c.Reset("dev")
-	where = "UpdateMetadata after Reset"
-	c.UpdateMetadata()
-	where = "Remove"
-	c.Remove("dev")
-	return st, nil
 }
 
 // cacheHandler returns the CacheClient's own notification handler: the client
@@ -381,12 +522,13 @@ func registerImpl() {
 // receive path of the gNMI client into the CLI display of every type.
 func runClient(sc *Scenario) (st *stats, err error) {
 	st = &stats{}
-	where := "setup"
+	where := func() string { return "setup" }
 	defer func() {
 		if r := recover(); r != nil {
-			err = fmt.Errorf("panic during %s: %v\n%s", where, r, trimStack(debug.Stack()))
+			err = fmt.Errorf("panic during %s: %v\n%s", where(), r, trimStack(debug.Stack()))
 		}
 	}()
+	st.size(dimMsgs, len(sc.Msgs), 17, 129)
 	var msgs []*pb.SubscribeResponse
 	for _, b := range sc.Msgs {
 		r := &pb.SubscribeResponse{}
@@ -417,7 +559,9 @@ func runClient(sc *Scenario) (st *stats, err error) {
 	capture = nil
 	captureMsgs = msgs
 	captureMu.Unlock()
-	where = fmt.Sprintf("cli.QueryDisplay(type=%s display=%s timestamp=%q) of %v", sc.QueryType, sc.Display, sc.Timestamp, msgs)
+	where = func() string {
+		return fmt.Sprintf("cli.QueryDisplay(type=%s display=%s timestamp=%q) of %s", sc.QueryType, sc.Display, sc.Timestamp, short(fmt.Sprint(msgs), 6000))
+	}
 	derr := cli.QueryDisplay(context.Background(), q, cfg)
 	if derr != nil {
 		st.label("display-error")
@@ -443,6 +587,10 @@ type memStream struct {
 	recvC  chan *pb.SubscribeRequest
 	mu     sync.Mutex
 	sent   int
+	// shape of what was sent: updates, sync responses, whether the last one was a sync response
+	updates  int
+	syncs    int
+	lastSync bool
 }
 
 func (s *memStream) Context() context.Context     { return s.ctx }
@@ -461,6 +609,15 @@ func (s *memStream) Send(r *pb.SubscribeResponse) error {
 	}
 	s.mu.Lock()
 	s.sent++
+	if _, ok := r.Response.(*pb.SubscribeResponse_SyncResponse); ok {
+		s.syncs++
+		s.lastSync = true
+	} else {
+		s.lastSync = false
+		if r.GetUpdate() != nil {
+			s.updates++
+		}
+	}
 	s.mu.Unlock()
 	return nil
 }
@@ -473,6 +630,52 @@ func (s *memStream) Recv() (*pb.SubscribeRequest, error) {
 		return r, nil
 	case <-s.ctx.Done():
 		return nil, s.ctx.Err()
+	}
+}
+
+func modeLabel(m pb.SubscriptionList_Mode) string {
+	if _, ok := pb.SubscriptionList_Mode_name[int32(m)]; ok {
+		return "mode-" + m.String()
+	}
+	return "mode-undeclared"
+}
+
+// firstRequestFeatures labels the first request of an RPC.
+func firstRequestFeatures(r *pb.SubscribeRequest, st *stats) {
+	sl := r.GetSubscribe()
+	if sl == nil || sl.GetPrefix().GetTarget() == "" {
+		st.label("first-request-invalid")
+		return
+	}
+	st.reached = true
+	st.label(modeLabel(sl.GetMode()))
+	pathSizes(sl.Prefix, st)
+	st.size(dimSubs, len(sl.Subscription), 5, 17, 65)
+	for _, s := range sl.Subscription {
+		pathSizes(s.Path, st)
+		if s.Path == nil {
+			st.label("nil-subscription-path")
+			st.hostile = true
+		}
+		idx := gn.RefIndex(s.Path, false)
+		for _, e := range idx {
+			if e == "*" {
+				st.label("glob-subscription")
+				st.hostile = true
+			}
+			if e == "meta" {
+				st.label("meta-subscription")
+				st.hostile = true
+			}
+		}
+		if len(idx) == 0 {
+			st.label("root-subscription")
+			st.hostile = true
+		}
+	}
+	if len(sl.Subscription) == 0 {
+		st.label("no-subscriptions")
+		st.hostile = true
 	}
 }
 
@@ -529,41 +732,13 @@ func runSubscribe(t *testing.T, sc *Scenario) (st *stats, err error) {
 				continue
 			}
 			if i == 0 {
-				if sl := r.GetSubscribe(); sl != nil && sl.GetPrefix().GetTarget() != "" {
-					st.reached = true
-					st.label("mode-" + sl.GetMode().String())
-					for _, s := range sl.Subscription {
-						if s.Path == nil {
-							st.label("nil-subscription-path")
-							st.hostile = true
-						}
-						for _, e := range gn.RefIndex(s.Path, false) {
-							if e == "*" {
-								st.label("glob-subscription")
-								st.hostile = true
-							}
-							if e == "meta" {
-								st.label("meta-subscription")
-								st.hostile = true
-							}
-						}
-						if len(gn.RefIndex(s.Path, false)) == 0 {
-							st.label("root-subscription")
-							st.hostile = true
-						}
-					}
-					if len(sl.Subscription) == 0 {
-						st.label("no-subscriptions")
-						st.hostile = true
-					}
-				} else {
-					st.label("first-request-invalid")
-				}
+				firstRequestFeatures(r, st)
 			}
 			stream.recvC <- r
 		}
 		done := false
 		var herr error
+		st.size(dimMsgs, len(sc.Msgs), 17, 129)
 		where = fmt.Sprintf("Subscribe with requests %v", sc.Text)
 		go func() {
 			defer func() {
